@@ -62,6 +62,16 @@ def posByte (i : Nat) : UInt8 := u8 (i * 167 + i / 251 + 13)
 
 def posBytes (n : Nat) : List UInt8 := (List.range n).map posByte
 
+/-! hashing helpers shared with the harness (FNV-style fold) -/
+def H0 : UInt64 := 0xcbf29ce484222325
+@[inline] def mix (h v : UInt64) : UInt64 := (h ^^^ v) * 0x100000001b3
+def hex16 (h : UInt64) : String :=
+  let s := String.ofList (Nat.toDigits 16 h.toNat)
+  String.ofList (List.replicate (16 - s.length) '0') ++ s
+def hexN (n width : Nat) : String :=
+  let s := String.ofList (Nat.toDigits 16 n)
+  String.ofList (List.replicate (width - s.length) '0') ++ s
+
 def splitOn1 (s : String) (sep : String) : List String := s.splitOn sep
 
 end EpdVerif
